@@ -47,7 +47,7 @@ pub(crate) fn dist_sample_any<R: RngCore>(_d: Dist, rng: &mut R) -> f64 {
 
 /// native-replay hook (cfg(verif_replay_stub) only, see engine/scratch.py)
 pub(crate) fn replay_dist_hook<R: RngCore>(d: Dist, rng: &mut R) -> Option<f64> {
-    Some(dist_sample_any(d, rng))
+    if crate::verif::mode() == crate::verif::MODE_DIST { Some(dist_sample_any(d, rng)) } else { None }
 }
 
 pub(crate) fn any_dist() -> Dist {
@@ -62,6 +62,7 @@ const DAY_US: u64 = 86_400_000_000;
 #[kani::proof]
 #[kani::stub(crate::dist::Dist::dist_sample, dist_sample_any)]
 fn k_dist_clamp() {
+    crate::verif::set_mode(crate::verif::MODE_DIST);
     let d = any_dist();
     let mut rng = AnyRng::new();
     let v = d.sample(&mut rng);
@@ -79,6 +80,7 @@ fn k_dist_clamp() {
 #[kani::proof]
 #[kani::stub(crate::dist::Dist::dist_sample, dist_sample_any)]
 fn k_action_samples() {
+    crate::verif::set_mode(crate::verif::MODE_DIST);
     let mut rng = AnyRng::new();
     let lim = if kani::any() { Some(any_dist()) } else { None };
     let a = match kani::any::<u8>() % 4 {
